@@ -181,7 +181,7 @@ func checkItem(path string, tr interface{}, doc interface{}) string {
 	}
 	var nn []interface{}
 	for _, x := range members {
-		if normJSON(x) != nil {
+		if !c02Silent(x) {
 			nn = append(nn, x)
 		}
 	}
@@ -214,7 +214,10 @@ func checkField(path, term, kind string, v interface{}, doc map[string]interface
 	}
 	switch kind {
 	case "item":
-		if normJSON(v) == nil {
+		if c02Silent(v) {
+			if a, ok := doc[term].([]interface{}); ok && len(a) == 0 {
+				used[term] = true
+			}
 			return ""
 		}
 		x, ok := get(term)
@@ -226,11 +229,14 @@ func checkField(path, term, kind string, v interface{}, doc map[string]interface
 		l := asList(m["list"])
 		var nn []interface{}
 		for _, e := range l {
-			if normJSON(e) != nil {
+			if !c02Silent(e) {
 				nn = append(nn, e)
 			}
 		}
 		if len(nn) == 0 {
+			if a, ok := doc[term].([]interface{}); ok && len(a) == 0 {
+				used[term] = true // a list holding only members with nothing to say may be written as []
+			}
 			return ""
 		}
 		x, ok := get(term)
@@ -566,7 +572,33 @@ func init() {
 				}
 			}
 		}
+		// lists with members that have nothing to say (nil, typed nil, empty IRI, empty object) in every position
+		silent := []interface{}{nil, T{"t": "Object", "nil": true}, T{"iri": ""}, T{"t": "Object", "ptr": true, "f": T{}}}
+		for si, sv := range silent {
+			for pos := 0; pos < 3; pos++ {
+				l := []interface{}{T{"iri": "https://example.com/a"}, T{"t": "Object", "ptr": true, "f": T{"ID": T{"s": "https://example.com/b"}, "Type": T{"s": "Note"}}}}
+				l = append(l[:pos], append([]interface{}{sv}, l[pos:]...)...)
+				if pos == 0 && si%2 == 0 {
+					l = append([]interface{}{sv}, l...)
+				}
+				for _, holder := range []T{
+					{"t": "Object", "ptr": true, "f": T{"Type": T{"s": "Note"}, "To": T{"list": l}}},
+					{"t": "Object", "ptr": true, "f": T{"Type": T{"s": "Note"}, "Tag": T{"list": l}, "Context": T{"items": l, "ptr": false}}},
+					{"t": "OrderedCollection", "ptr": true, "f": T{"Type": T{"s": "OrderedCollection"}, "OrderedItems": T{"list": l}}},
+					{"t": "Collection", "ptr": true, "f": T{"Type": T{"s": "Collection"}, "Items": T{"list": l}}},
+					{"t": "Actor", "ptr": true, "f": T{"Type": T{"s": "Person"}, "Streams": T{"list": l}}},
+				} {
+					tr := cloneTree(holder).(T)
+					c.Count(tr, true)
+					c.Tag("silent-list-member")
+					if _, viol := c02Check(tr); viol != "" {
+						c.Fail("C02/invalid", viol, map[string]interface{}{"v": tr})
+					}
+				}
+			}
+		}
 		cfg := c01Cfg(c.N(2, 3))
+		cfg.NilMembers = true
 		emit := func(c *Ctx, x interface{}, tag string) {
 			tr := c02Substitute(c.R, x).(T)
 			c.Count(tr, true)
@@ -642,4 +674,28 @@ func c02Substitute(r *RNG, x interface{}) interface{} {
 		return out
 	}
 	return x
+}
+
+// c02Silent: a value the encoder has nothing to write for (nil-like, empty IRI, object without any set property, list of those)
+func c02Silent(x interface{}) bool {
+	n := normJSON(x)
+	if n == nil {
+		return true
+	}
+	m, _ := n.(T)
+	if s, ok := m["iri"]; ok {
+		return s == ""
+	}
+	if l, ok := m["items"]; ok {
+		for _, e := range asList(l) {
+			if !c02Silent(e) {
+				return false
+			}
+		}
+		return true
+	}
+	if f, ok := m["f"].(T); ok {
+		return len(f) == 0
+	}
+	return false
 }
